@@ -34,7 +34,7 @@ RANK = re.compile(r'HeuristicFrequencyRank>::rank$')
 SEARCH_ROOTS = [r'^memmem::searcher::Searcher::find$', r'^memmem::searcher::SearcherRev::rfind$',
                 r"^<memmem::FindIter<'_, '_> as core::iter::Iterator>::next$",
                 r"^<memmem::FindRevIter<'_, '_> as core::iter::Iterator>::next$",
-                r"^memmem::Finder::<'_>::find$", r"^memmem::FinderRev::<'_>::rfind::<\[u8\]>$"]
+                r"^memmem::Finder::<'_>::find$", r"^memmem::FinderRev::<'_>::rfind::<&\[u8\]>$"]
 
 
 def user_locals(inst, name):
